@@ -82,6 +82,12 @@ def alphabet(d):
         a += ["--" + i.name, "--" + i.name + "=w", "--" + i.name + "=", "--no-" + i.name]
         if i.kind == "t":
             a += ["--no-" + i.name + "=w", "--no-" + i.name + "="]
+            if i.flag:
+                # a longer name that begins like the reversal of a reversible toggle
+                a += ["--no-" + i.name + "ly"]
+    for i in d.items[:2]:
+        a += ["--" + i.name + "ly"]
+    for i in d.items:
         if i.short:
             a += ["-" + i.short, "-" + i.short + "=w", "-" + i.short + i.short]
     for x, y in itertools.product(togletters[:2], repeat=2):
